@@ -60,16 +60,11 @@ end Norm
 namespace Norm
 open Spec
 
-theorem suffix_tbl2 : ∀ s ∈ Spec.integerSuffixes, ∀ c, s.toList.head? = some c →
-    isE c = false ∧ isP c = false ∧ c ≠ '.' := by decide +kernel
-
-theorem eP_word : isE 'e' = true ∧ ('e' ∈ wordChars) ∧ ('E' ∈ wordChars) ∧ ('p' ∈ wordChars) ∧ ('P' ∈ wordChars) := by decide
-
-theorem after_head2 (u : Uni) {sfx : String} (hs : sfx ∈ Spec.integerSuffixes) {rest : List Char}
-    (hb : boundaryOK rest) : ∀ c, (sfx.toList ++ rest).head? = some c →
+theorem after_head2 (u : Uni) {sfx : List Char} (hs : suffixShape sfx = true) {rest : List Char}
+    (hb : boundaryOK rest) : ∀ c, (sfx ++ rest).head? = some c →
       isE c = false ∧ isP c = false ∧ c ≠ '.' := by
   intro c hc
-  cases hl : sfx.toList with
+  cases hl : sfx with
   | nil =>
     rw [hl] at hc
     cases rest with
@@ -86,7 +81,8 @@ theorem after_head2 (u : Uni) {sfx : String} (hs : sfx ∈ Spec.integerSuffixes)
         · unfold isP at h; simp at h; rcases h with rfl | rfl <;> exact absurd (by decide) hw
   | cons d tl =>
     rw [hl] at hc; simp at hc; subst hc
-    exact suffix_tbl2 sfx hs d (by rw [hl]; rfl)
+    obtain ⟨_, _, _, _, h5, _, _, h8, h9⟩ := (suffixShape_facts hs).2 d (by rw [hl]; rfl)
+    exact ⟨h8, h9, h5⟩
 
 theorem matchExp_nil {isL isD : Char → Bool} {tail : List Char → Nat} {l : List Char}
     (h : ∀ c, l.head? = some c → isL c = false) : matchExp isL isD tail l = [] := by
@@ -97,8 +93,8 @@ theorem matchExp_nil {isL isD : Char → Bool} {tail : List Char → Nat} {l : L
     | cons c tl => simp [List.takeWhile_cons, h c rfl]
   simp [this]
 
-/-- the three float patterns do not claim a well-formed integer constant -/
-theorem floatLogic_int_noMatch (u : Uni) (k : IntConst) (hk : k.WF) (rest : List Char) (hb : boundaryOK rest)
+/-- the three float patterns do not claim an integer constant (well-formed or of the malformed shapes) -/
+theorem floatLogic_int_noMatch (u : Uni) (k : IntConst) (hk : k.Shape) (rest : List Char) (hb : boundaryOK rest)
     (line col : Nat) : floatLogic u line col (k.render ++ rest) = .noMatch := by
   obtain ⟨hs, hbase⟩ := hk
   have hah := after_head u hs hb
@@ -154,7 +150,7 @@ theorem floatLogic_int_noMatch (u : Uni) (k : IntConst) (hk : k.WF) (rest : List
       intro c hc
       rcases List.mem_cons.mp hc with rfl | hc
       · decide
-      · exact (oct_tbl c (by have := hbase c hc; unfold isOct at this; simpa using this)).1
+      · have := hbase c hc; unfold isDec at this; simpa using this
     have htw : (('0' :: k.digits) ++ (k.suffix.toList ++ rest)).takeWhile u.isD = '0' :: k.digits :=
       takeWhile_app (fun c hc => (dec_facts u (hall c hc)).1) (fun c hc => (hah c hc).1)
     have hdw : (('0' :: k.digits) ++ (k.suffix.toList ++ rest)).dropWhile u.isD = k.suffix.toList ++ rest :=
